@@ -4,7 +4,45 @@
  * randomness, no real threads unless asked for, regexec logging. */
 #define _GNU_SOURCE
 #include "hcommon.h"
+/* every header radsecproxy.c pulls in, so that the free() redirection below touches only its own code */
+#include <limits.h>
+#include <netdb.h>
+#include <netinet/in.h>
+#include <sys/socket.h>
+#include <malloc.h>
+#include <fcntl.h>
+#include <arpa/inet.h>
+#include <assert.h>
+#include <ctype.h>
+#include <libgen.h>
+#include <nettle/md5.h>
+#include <openssl/err.h>
+#include <openssl/rand.h>
+#include <openssl/ssl.h>
+#include <poll.h>
+#include <pthread.h>
+#include <regex.h>
+#include <sys/time.h>
+/* request objects are tracked from creation to free(): released exactly once, not retained (C17/C19) */
+#define H_MAXRQ 8192
+static void *h_allrq[H_MAXRQ];
+static unsigned char h_rqfreed[H_MAXRQ], h_rqleakrep[H_MAXRQ];
+static int h_nallrq = 0;
+static void h_track_rq(void *p) {
+    int i;
+    for (i = h_nallrq - 1; i >= 0; i--)
+        if (h_allrq[i] == p && !h_rqfreed[i]) return;
+    if (h_nallrq < H_MAXRQ) { h_allrq[h_nallrq] = p; h_rqfreed[h_nallrq] = 0; h_rqleakrep[h_nallrq] = 0; h_nallrq++; }
+}
+static void verif_free(void *p) {
+    int i;
+    for (i = h_nallrq - 1; i >= 0; i--)
+        if (h_allrq[i] == p && !h_rqfreed[i]) { h_rqfreed[i] = 1; break; }
+    (free)(p);
+}
+#define free(p) verif_free(p)
 #include "radsecproxy.c"
+#undef free
 #include <stdarg.h>
 
 /* ------------------------------------------------------------------ virtual environment */
@@ -41,8 +79,18 @@ static void set_rand(const char *hex) {
 static int verif_threads_real = 0;
 static int verif_thread_count = 0;
 int __real_pthread_create(pthread_t *t, const pthread_attr_t *a, void *(*f)(void *), void *arg);
+/* the writer of a dynamically discovered server is not started; op dynflush runs it synchronously */
+static void *(*h_dyn_f)(void *) = NULL;
+static void *h_dyn_arg = NULL;
+void *clientwr(void *arg);
+unsigned int __wrap_sleep(unsigned int s) { (void)s; return 0; }
 int __wrap_pthread_create(pthread_t *t, const pthread_attr_t *a, void *(*f)(void *), void *arg) {
     verif_thread_count++;
+    if (f == clientwr && arg && ((struct server *)arg)->dynamiclookuparg) {
+        h_dyn_f = f; h_dyn_arg = arg;
+        memset(t, 0, sizeof(*t));
+        return 0;
+    }
     if (verif_threads_real)
         return __real_pthread_create(t, a, f, arg);
     memset(t, 0, sizeof(*t));
@@ -223,6 +271,8 @@ static void load_conf(void) {
 
 static void h_case_begin(void) {
     opidx = 0;
+    memset(lk_edge, 0, sizeof(lk_edge)); lk_on = 1;
+    h_nallrq = 0;
     h_logpath[0] = 0; h_logpos = 0;
     verif_conf_file = NULL; verif_conf_loaded = 0; nrx = 0; nrewrite_names = 0; h_nopipe = 0;
     debug_init("verif");
@@ -255,7 +305,7 @@ static void h_line(char *kind, char *rest) {
         h_more_lines(kind, rest);
 }
 
-static void h_case_end(void) {}
+static void h_case_end(void) { lk_report(); }
 
 int main(int argc, char **argv) {
     return h_main(argc, argv);
